@@ -214,8 +214,49 @@ func varStub(set bool) genql.Function {
 	}
 }
 
+// barrierStub models user code that batches: an invocation returns only after n invocations of its call site
+// have started (e.g. "collect n rows, then flush"). All of a query's ASYNC calls are in flight together, so a
+// barrier over all rows completes; it does not if the library quietly bounds or serialises the calls.
+var barStarted []int
+
+//go:norace
+func barArrive(id int) {
+	for len(barStarted) <= id {
+		barStarted = append(barStarted, 0)
+	}
+	barStarted[id]++
+}
+
+//go:norace
+func barCount(id int) int { return barStarted[id] }
+
+func barrierStub() genql.Function {
+	return func(q *genql.Query, current genql.Map, _ *genql.FunctionOptions, args []any) (any, error) {
+		id, err := stubID(args)
+		if err != nil {
+			return nil, err
+		}
+		n, _ := args[1].(float64)
+		var x any
+		if len(args) > 2 {
+			x = args[2]
+		}
+		idx, _ := beginCall("bar", id, argText(x), false)
+		barArrive(id)
+		for barCount(id) < int(n) {
+			zzsim.Sleep(time.Millisecond)
+		}
+		endCall(idx, "")
+		if v, ok := x.(float64); ok {
+			return v + 1000*float64(id), nil
+		}
+		return x, nil
+	}
+}
+
 func registerStubs(p *casefmt.StubPlan) {
 	plan = p
+	genql.RegisterFunction("bar", barrierStub())
 	genql.RegisterFunction("setv", varStub(true))
 	genql.RegisterFunction("getv", varStub(false))
 	genql.RegisterFunction("fx", stubBody("fx", true))
